@@ -198,7 +198,9 @@ def run(P, tier="quick"):
             for m in body.walk():
                 if m.k == "BinaryOperator" and m.op == "=":
                     l = m.kids[0].strip()
-                    if l.k == "ArraySubscriptExpr" and l.kids[0].strip().refname == "matrices":
+                    if l.k == "ArraySubscriptExpr" and l.kids[0].strip().k == "DeclRefExpr" and l.kids[0].strip().refkind == "local" and \
+                            "yaml_node" in (l.kids[0].strip().ctype or "") and "[" in (l.kids[0].strip().ctype or ""):
+                        # the presence table: the local array of yaml node pointers indexed by matrix id (by role, not by name)
                         iv = l.kids[1].strip().cv
                         if iv is not None:
                             key_of_id[iv] = key
